@@ -185,7 +185,7 @@ def run(ctx, rep, prop, max_variants=None, seed=0):
     # wall-clock budget: on a slow or busy machine the run analyses fewer variants
     # instead of taking arbitrarily long (the number analysed is reported)
     import time
-    budget = float(os.environ.get("VERIF_SENS_BUDGET_S", "200"))
+    budget = float(os.environ.get("VERIF_SENS_BUDGET_S", "120"))
     t0 = time.time()
     results = []
     with mp.Pool(nproc) as pool:
